@@ -1,0 +1,22 @@
+//go:build verif
+// +build verif
+
+package ldb
+
+import "massnet.org/mass-wallet/masswallet/db"
+
+// VerifRawIterate calls fn for every raw key/value pair of the underlying
+// LevelDB store in key order (verification harness only; read-only).
+// It returns false if d is not a *LevelDB.
+func VerifRawIterate(d db.DB, fn func(k, v []byte)) bool {
+	l, ok := d.(*LevelDB)
+	if !ok {
+		return false
+	}
+	iter := l.ldb.NewIterator(nil, nil)
+	defer iter.Release()
+	for iter.Next() {
+		fn(append([]byte{}, iter.Key()...), append([]byte{}, iter.Value()...))
+	}
+	return true
+}
